@@ -22,16 +22,27 @@ Params == JsonDeserialize("mcparams.json")
 DocShapes == IF Params.big THEN {"scalars", "arrays", "arrdocs", "nestedarr", "empty", "docid", "binid", "arrid", "numkeys", "deep"}
              ELSE {"arrays", "arrdocs", "docid", "numkeys"}
 
-Families == {<<"query", o>> : o \in QueryOps} \cup {<<"update", o>> : o \in UpdateOps} \cup {<<"project", o>> : o \in ProjOps} \cup {<<"other", o>> : o \in OtherOps}
+(* The second grid: every combination of the options that steer a call through different code paths (what is   *)
+(* matched, upsert, which image is returned, projection, sort, inside a session transaction or not).            *)
+OptCalls == {"findOneAndUpdate", "findOneAndReplace", "findOneAndDelete", "updateOne", "updateMany", "replaceOne", "deleteOne", "find", "findOne", "distinct", "count", "bulkWrite"}
+OptMatch == {"one", "none", "many", "emptycoll", "nocoll"}
+OptProj == {"none", "incl", "excl", "idonly", "noid", "slice", "elem", "mixed"}
+OptSort == {"none", "asc", "desc", "bad"}
+OptCells == {<<u, m, r, pj, so, tx>> : u \in BOOLEAN, m \in OptMatch, r \in BOOLEAN, pj \in OptProj, so \in OptSort, tx \in BOOLEAN}
+
+Families == {<<"options", o>> : o \in OptCalls} \cup {<<"query", o>> : o \in QueryOps} \cup {<<"update", o>> : o \in UpdateOps} \cup {<<"project", o>> : o \in ProjOps} \cup {<<"other", o>> : o \in OtherOps}
 
 VARIABLES fam, cell
 vars == <<fam, cell>>
 Init == fam = <<>> /\ cell = <<>>
 Next == \/ /\ fam = <<>> /\ fam' \in Families /\ cell' = <<>>
         \/ /\ fam # <<>> /\ cell = <<>>
-           /\ cell' \in {<<a, p, d>> : a \in ArgClasses, p \in PathShapes, d \in DocShapes}
+           /\ cell' \in IF fam[1] = "options" THEN OptCells ELSE {<<a, p, d>> : a \in ArgClasses, p \in PathShapes, d \in DocShapes}
            /\ fam' = fam
 Spec == Init /\ [][Next]_vars
 
-Emit == cell # <<>> => PrintT(<<"CASE", ToJson([fam |-> fam[1], op |-> fam[2], arg |-> cell[1], path |-> cell[2], doc |-> cell[3]])>>)
+Emit == cell # <<>> =>
+          IF fam[1] = "options"
+          THEN PrintT(<<"CASE", ToJson([fam |-> fam[1], op |-> fam[2], upsert |-> cell[1], match |-> cell[2], after |-> cell[3], proj |-> cell[4], sort |-> cell[5], txn |-> cell[6]])>>)
+          ELSE PrintT(<<"CASE", ToJson([fam |-> fam[1], op |-> fam[2], arg |-> cell[1], path |-> cell[2], doc |-> cell[3]])>>)
 =============================================================================
